@@ -1113,11 +1113,8 @@ def gen_onto_spec(rng, chk, k):
     if prior.startswith('tracked') or prior.startswith('untracked') or rng.random() < 0.5:
         files.append(D + '/keep.txt')          # the directory is there from the start: no `/dir/` line hides what happens to the file line
     topts = ['--recheck-method', rng.choice(['symlink', 'hardlink'])] if rng.random() < 0.25 else []
-    if prior == 'user-dangling-link':
-        # link methods onto a dangling link fail on the unchanged code (Path::exists follows the link, the entry is not removed,
-        # symlink/hard_link answer EEXIST): the command panics, nothing is materialised - not a C16 matter, see the report
-        topts = []
-        method = lambda: (lambda m: ['--recheck-method', m] if m else [])(rng.choice([None, 'copy', 'reflink']))
+    # (link methods onto a dangling link used to panic - Path::exists follows the link, the entry was not removed, symlink/hard_link
+    # answered EEXIST, the path was recorded and never materialised -; repaired by F38, every method is generated here since)
     cmds = [('track', [s0, s1], topts)]
     if prior == 'user-file': cmds.append(('u-put', dst, 'file'))
     elif prior == 'user-link': cmds.append(('u-put', dst, 'link'))
